@@ -45,6 +45,9 @@ pub struct Scenario {
     pub shape: u64,
     /// estimated number of decisions of a fault-free run (set after the reference run)
     pub est_len: u64,
+    /// lower bound on the time slice (for scenarios with very long loops); 0 = none
+    #[serde(default)]
+    pub min_quantum: usize,
 }
 
 #[derive(Clone, Debug, Serialize, Deserialize)]
@@ -333,7 +336,13 @@ pub fn run_case(prop: &dyn Property, base_seed: u64, case: u64, tier: Tier, repl
             cfg.faults = scn.fixed_faults.clone();
         }
         cfg.clock_offsets.truncate(cfg.nworkers);
-        let sched = SchedSpec::draw(&mut vr, cfg.nworkers, scn.timing, scn.est_len);
+        let mut sched = SchedSpec::draw(&mut vr, cfg.nworkers, scn.timing, scn.est_len);
+        if scn.min_quantum > 0 {
+            sched.quantum = match sched.quantum {
+                crate::sched::Quantum::Fixed(q) => crate::sched::Quantum::Fixed(q.max(scn.min_quantum)),
+                crate::sched::Quantum::PerTurn => crate::sched::Quantum::Fixed(scn.min_quantum),
+            };
+        }
         let tail_bound = 50 * scn.est_len * (cfg.nworkers as u64 + 3) + 2000;
         cfg.max_steps = cfg.max_steps.max(sched.fault_stop + tail_bound + 1000);
         let nworkers = cfg.nworkers;
